@@ -20,7 +20,9 @@ Inductive fsop :=
 | Sync (p : path)                  (* f.Chmod + f.Sync: content unchanged *)
 | Close (p : path)
 | Rename (a b : path)              (* os.Rename(a, b): b atomically gets a's content, a disappears *)
-| Remove (p : path).
+| Remove (p : path)
+| OpenKeep (p : path)              (* os.OpenFile(p, O_CREATE|O_WRONLY) without O_TRUNC: an existing file keeps its content *)
+| Overwrite (p : path) (d : bytes). (* f.Write(d) at offset 0 of a file opened that way: what lies beyond d stays *)
 
 Definition apply (s : fs) (o : fsop) : fs :=
   match o with
@@ -31,6 +33,8 @@ Definition apply (s : fs) (o : fsop) : fs :=
   | Close _ => s
   | Rename a b => match s a with Some c => fupd (fupd s b (Some c)) a None | None => s end
   | Remove p => fupd s p None
+  | OpenKeep p => match s p with Some _ => s | None => fupd s p (Some []) end
+  | Overwrite p d => match s p with Some c => fupd s p (Some (d ++ skipn (length d) c)) | None => s end
   end.
 
 Definition run (s : fs) (ops : list fsop) : fs := fold_left apply ops s.
@@ -41,6 +45,11 @@ Definition partials (i : nat) (s : fs) (o : fsop) : list (nat * nat * fs) :=
   | Write p d =>
       match s p with
       | Some c => map (fun k => (i, k, fupd s p (Some (c ++ firstn k d)))) (seq 1 (length d - 1))
+      | None => []
+      end
+  | Overwrite p d =>
+      match s p with
+      | Some c => map (fun k => (i, k, fupd s p (Some (firstn k d ++ skipn k c)))) (seq 1 (length d - 1))
       | None => []
       end
   | _ => []
@@ -65,6 +74,26 @@ Definition unsafe_flush (tgt : path) (data : bytes) : list fsop :=
 Definition remove_rename_flush (tgt tmp : path) (data : bytes) : list fsop :=
   [CreateTmp tmp; Write tmp data; Sync tmp; Close tmp; Remove tgt; Rename tmp tgt].
 
+(* a single well-known temporary name, opened without truncation and reused by the next flush *)
+Definition reuse_flush (tgt tmp : path) (data : bytes) : list fsop :=
+  [OpenKeep tmp; Overwrite tmp data; Sync tmp; Close tmp; Rename tmp tgt].
+
+(* several flushes in a row, each one interrupted somewhere (or not: the last crash state of a flush is
+   its completion), the server restarting in between: the state a crash leaves behind — stray temporary
+   files with partial content included — is the start state of the next flush *)
+Fixpoint crash_runs (s : fs) (flushes : list (list fsop)) : list fs :=
+  match flushes with
+  | [] => [s]
+  | ops :: r => flat_map (fun x => crash_runs (snd x) r) (crash_states s ops)
+  end.
+
+(* the crash state with a given label (the start state if there is none) *)
+Definition crash_pick (s : fs) (ops : list fsop) (i k : nat) : fs :=
+  match find (fun x => Nat.eqb (fst (fst x)) i && Nat.eqb (snd (fst x)) k) (crash_states s ops) with
+  | Some x => snd x
+  | None => s
+  end.
+
 (* the names under which the hook points of utils/io.go report the steps *)
 Definition op_name (o : fsop) : bytes :=
   match o with
@@ -75,6 +104,8 @@ Definition op_name (o : fsop) : bytes :=
   | Close _ => [99;108;111;115;101]                     (* close *)
   | Rename _ _ => [114;101;110;97;109;101]              (* rename *)
   | Remove _ => [114;101;109;111;118;101]               (* remove *)
+  | OpenKeep _ => [99;114;101;97;116;101]               (* create *)
+  | Overwrite _ _ => [119;114;105;116;101]              (* write *)
   end.
 
 (* JSON is an oracle: [encode]/[decode] with the laws stated in the proofs file *)
@@ -94,4 +125,9 @@ Section Codec.
     match got with Some t => teqb t told || teqb t tnew | None => false end.
   Definition crash_ok (told tnew : T) (loads : list (option T)) : bool :=
     forallb (loaded_ok told tnew) loads.
+  (* one round of (flush, crash, restart): a completed flush must give exactly the new table,
+     whatever earlier crashes left in the directory *)
+  Definition round_ok (told tnew : T) (complete : bool) (got : option T) : bool :=
+    if complete then match got with Some t => teqb t tnew | None => false end
+    else loaded_ok told tnew got.
 End Codec.
